@@ -33,7 +33,7 @@ def gen_plan(seed, tier="quick", variant=None):
     rng = random.Random(seed * 48271 % (2 ** 31) + 13)
     thorough = tier == "thorough"
     if variant is None:
-        variant = rng.choice(["route", "route", "timeout", "close", "close_refresh", "cache", "cache", "garbage", "sweep", "unaware"])
+        variant = rng.choice(["route", "route", "timeout", "close", "close_refresh", "close_refresh", "cache", "cache", "garbage", "sweep", "unaware"])
     nb = rng.randint(1, 5 if thorough else 4)
     if variant == "close_refresh":
         nb = rng.randint(3, 5)
@@ -122,7 +122,15 @@ def gen_plan(seed, tier="quick", variant=None):
         ops.append({"t": round(t0 + 0.0005, 6), "op": "call", "id": 51, "kind": "metadata_all", "tps": []})
         faults.append({"t": round(t0 + dt1, 6), "act": "hide_broker", "node": gone[1]})
         ops.append({"t": round(t0 + dt1 + 0.0005, 6), "op": "call", "id": 52, "kind": "metadata_all", "tps": []})
-        ops.append({"t": round(t0 + dt1 + rng.choice([0.004, 0.008, 0.02, 0.05]), 6), "op": "close"})
+        if random.Random(seed * 997 + 1).random() < 0.4:
+            # ... or the application closes from the failure callback of a request that the refresh fails by retiring its
+            # broker: a slow request on every partition, still in flight when the refresh is merged
+            led = [(t["name"], i) for t in topics for i, ld in enumerate(t["leaders"]) if ld in gone] or all_tps[:1]
+            ops.append({"t": round(t0 - 0.001, 6), "op": "call", "id": 53, "kind": "fetch", "tps": led, "offset": 2 ** 40, "max_bytes": 4096,
+                        "max_wait": 100, "min_bytes": 4096})
+            ops.append({"after_call": 53, "op": "close"})
+        else:
+            ops.append({"t": round(t0 + dt1 + rng.choice([0.004, 0.008, 0.02, 0.05]), 6), "op": "close"})
     nf = rng.choice([0, 1, 2, 3, 5]) if variant not in ("sweep", "close_refresh") else rng.choice([0, 0, 1])
     if variant == "close_refresh":
         nf = 0
@@ -252,6 +260,19 @@ def gen_plan(seed, tier="quick", variant=None):
                 o["max_wait"] = 0
             o["tps"] = [tp for tp in o["tps"] if tp[0] != "nosuch"] or [all_tps[0]]
         faults.append({"api": None, "node": rng.choice([None, None] + list(range(1, nb + 1))), "nth": rng.randint(0, 2), "act": "silent", "count": rng.choice([1, 2, 3])})
+    r9 = random.Random(seed * 991 + 3)
+    callops_ = [o for o in ops if o.get("op") == "call"]
+    if callops_ and variant in ("route", "close", "cache", "timeout") and r9.random() < 0.25:
+        # the application acts from inside a result callback: issues the next call, or closes the client
+        a = r9.choice(callops_)
+        if r9.random() < 0.4 and not any(o.get("op") == "close" for o in ops):
+            ops.append({"after_call": a["id"], "op": "close"})
+        else:
+            b = dict(r9.choice(callops_))
+            b.pop("t", None)
+            b.pop("on", None)
+            b.update(id=200 + r9.randint(0, 9), after_call=a["id"])
+            ops.append(b)
     t_end = round(max([horizon * 1.6] + [f["t"] for f in faults if "t" in f] + [o["t"] for o in ops if "t" in o]) + 0.01, 6)
     return {"family": FAMILY, "seed": seed, "tier": tier, "cfg": cfg, "ops": ops, "faults": faults, "t_end": t_end}
 
@@ -337,6 +358,10 @@ def _run(w, plan):
 
     sim.record = record_and_snap
 
+    after_call_ops = {}
+    for o_ in plan["ops"]:
+        if "after_call" in o_:
+            after_call_ops.setdefault(o_["after_call"], []).append(o_)
     on_call_ops = {}
     for o in plan["ops"]:
         if "on" in o:
@@ -382,10 +407,19 @@ def _run(w, plan):
                 return
             state["close_w"] = watch(d, "close", sim)
             # every call outstanding at close() has failed within that instant
+            if "after_call" in o:
+                # close() was called from inside a result callback, that is from inside the client's own call stack:
+                # "at once" is when that stack has unwound (still the same instant)
+                def settle():
+                    state["unfailed_after_close"] = [c["id"] for c in state["outstanding_at_close"] if not c["w"].fires]
+                    state["cache_after_close"] = (dict(client.topic_partitions), dict(client.topics_to_brokers), dict(client.topic_errors))
+                sim.after(0.0, settle)
+                return
             state["unfailed_after_close"] = [c["id"] for c in state["outstanding_at_close"] if not c["w"].fires]
             state["cache_after_close"] = (dict(client.topic_partitions), dict(client.topics_to_brokers), dict(client.topic_errors))
             return
         kind = o["kind"]
+        snap_cache()  # (a call issued from inside a callback sees the cache as it is now, not as it was after the last event)
         rec = {"id": o["id"], "kind": kind, "o": o, "t": sim.now, "seq": len(sim.log), "w": None, "payloads": None, "after_close": state["closed"],
                "clients_before": dict(client.clients or {}), "brokers_before": _known_brokers(client), "cache_at_call": len(cache_versions) - 1, "timers_before": len([dc for dc in reactor.pending("client.py")]),
                "versions_known": client._api_versions is not None}
@@ -467,6 +501,10 @@ def _run(w, plan):
             rec["seq_done"] = wd.seq
             rec["timers_at_done"] = len(reactor.pending("client.py"))
             rec["open_at_done"] = sum(1 for c in calls.values() if c["w"] is not None and not c["w"].fires and c is not rec)
+            # the application reacting from inside the result callback: another call, or close()
+            for oo in after_call_ops.pop(o["id"], ()):
+                res.probe("op_from_inside_a_result_callback_" + oo["op"])
+                do_op(oo)
 
         rec["w"] = watch(d, "call#%d" % o["id"], sim, fired, keep_failure=True)
         rec["w"].d = d
